@@ -9,6 +9,8 @@ package flushable
 //@ // store's lock is held and only be replaced while it is held for writing; every function returns with the locks it
 //@ // was called with (obligations lock.guard / lock.balanced, generated for every function of this file's claims)
 //@ guarded flushableReader.modified by lock
+//@ guarded flushableReader.underlying by lock
+//@ guarded Flushable.underlying by flushableReader.lock
 //@ guarded Flushable.sizeEstimation by flushableReader.lock
 //@ // the flush-buffering pool: the table of wrapped databases under the pool's mutex, the queue of drops under its own
 //@ guarded SyncedPool.wrappers by Mutex
@@ -387,6 +389,7 @@ package flushable
 //@ spec lazyp(w *LazyFlushable) bool = w.Flushable.underlying == box(devnull, "*devnulldb.Database") && w.producer != nil
 //@ func (*LazyFlushable).initUnderlyingDb
 //@   requires w != nil && w.Flushable != nil
+//@   requires [locked] wlocked(w.lock)
 //@   modifies w.Flushable.underlying, w.Flushable.flushableReader.underlying, w.producer, gProdN, gProdR0, gProdR1
 //@   ensures  [opened] !old(lazyp(w)) ==> result0 == old(w.Flushable.underlying) && result1 == nil && gProdN == old(gProdN) && w.Flushable.underlying == old(w.Flushable.underlying) && w.Flushable.flushableReader.underlying == old(w.Flushable.flushableReader.underlying) && w.producer == old(w.producer)
 //@   ensures  [open] old(lazyp(w)) ==> gProdN == old(gProdN) + 1
